@@ -9,6 +9,8 @@ import (
 // Span is the byte range one field (or one prefix) occupies in an encoding.
 type Span struct {
 	Path   string // e.g. Msg.Body.A2[1]
+	Owner  string // packet (or inline object) in which the field is declared
+	FName  string // field name
 	What   string // "value" | "count-prefix" | "length-prefix" | "object" | "element"
 	Kind   FKind
 	Type   string
@@ -22,12 +24,17 @@ type Encoding struct {
 	Bytes  []byte
 	Layout []Span
 	Err    string // set when the message has no defined encoding (e.g. match key outside the table)
+	// OutOfDomain is set when a length-of target is larger than its length field can express: the
+	// property does not define the encoding of such a message and the checks skip it.
+	OutOfDomain bool
 }
 
 type encoder struct {
-	r   *RProgram
-	buf []byte
-	lay []Span
+	r     *RProgram
+	buf   []byte
+	lay   []Span
+	ood   bool
+	owner string
 	// registered checksum algorithms
 	reg func(name string) bool
 }
@@ -69,9 +76,9 @@ func (e *encoder) putInt(v uint64, w int) {
 }
 
 func (e *encoder) span(path, what string, f *RField, off int) {
-	sp := Span{Path: path, What: what, Off: off, Len: len(e.buf) - off}
+	sp := Span{Path: path, What: what, Off: off, Len: len(e.buf) - off, Owner: e.owner}
 	if f != nil {
-		sp.Kind, sp.Type, sp.Repeat = f.Kind, f.Type, f.Repeat
+		sp.Kind, sp.Type, sp.Repeat, sp.FName = f.Kind, f.Type, f.Repeat, f.Name
 	}
 	e.lay = append(e.lay, sp)
 }
@@ -118,7 +125,10 @@ func (e *encoder) packet(path string, pk *RPacket, v *Value) error {
 		return fmt.Errorf("%s: value has %d members, packet %s has %d", path, len(v.Fields), pk.Name, len(pk.Fields))
 	}
 	patch := map[string]int{} // length field name -> offset
+	prevOwner := e.owner
+	defer func() { e.owner = prevOwner }()
 	for i, f := range pk.Fields {
+		e.owner = pk.Name
 		fv := v.Fields[i]
 		p := path + "." + f.Name
 		off := len(e.buf)
@@ -161,6 +171,9 @@ func (e *encoder) packet(path string, pk *RPacket, v *Value) error {
 				lf := pk.FieldByName(f.LenOfBy)
 				w := widthOf(lf.Type)
 				size := uint64(len(e.buf) - off)
+				if w < 8 && size >= uint64(1)<<(8*uint(w)) {
+					e.ood = true
+				}
 				tmp := &encoder{r: e.r}
 				tmp.putInt(size, w)
 				copy(e.buf[po:po+w], tmp.buf)
@@ -180,7 +193,7 @@ func (r *RProgram) Encode(m *Message) *Encoding {
 	if err := e.packet(m.Packet, pk, m.Val); err != nil {
 		return &Encoding{Err: err.Error()}
 	}
-	return &Encoding{Bytes: e.buf, Layout: e.lay}
+	return &Encoding{Bytes: e.buf, Layout: e.lay, OutOfDomain: e.ood}
 }
 
 // WireValue returns the logical value a decoder must produce for an encoded message: identical to
